@@ -35,7 +35,8 @@ class Insert:
         self.anchor = anchor
         self.hint = 'hint' in tags   # a pure proof step: its failure alone makes the property undecided, not violated
         self.each = 'each' in tags   # insert at every statement that begins with the anchor
-        self.tags = [t for t in tags if t not in ('hint', 'each')]
+        self.optional = 'optional' in tags   # a proof step for a statement that may be absent: no anchor, no insert
+        self.tags = [t for t in tags if t not in ('hint', 'each', 'optional')]
         self.lines = []
         self.origin = origin
         self.loop = loop
